@@ -30,6 +30,8 @@ type FuncContract struct {
 	Requires  []*Clause
 	Ensures   []*Clause
 	GhostEffects []*Clause // definitional ghost updates: assumed by callers, not checked in the body
+	RmulSigns bool      // use the sign axioms of the uninterpreted real multiplication
+	Lets      []*SpecFn // function-local definitions: name(args) type = expr, evaluated in the entry state
 	HasMod    bool
 	Modifies  []SExpr
 	LoopInv   map[int][]*Clause
@@ -106,7 +108,7 @@ func splitLabel(s string) (string, string) {
 }
 
 var clauseKeywords = map[string]bool{
-	"owns": true, "tracks": true, "dynbind": true, "ghost-effect": true, "func": true, "property": true, "requires": true, "ensures": true, "modifies": true,
+	"rmul-signs": true, "let": true, "owns": true, "tracks": true, "dynbind": true, "ghost-effect": true, "func": true, "property": true, "requires": true, "ensures": true, "modifies": true,
 	"loop": true, "at": true, "inline": true, "safe": true, "trusted": true, "noframe": true,
 	"inloop": true, "holds": true, "pure": true, "ghost": true, "spec": true, "axiom": true,
 	"iface": true, "monitor": true, "confined": true, "lemma": true, "dynpure": true, "note": true,
@@ -362,6 +364,19 @@ func (cs *Contracts) parseFile(file, pkg string) error {
 			cur.Pure = true
 		case "dynpure":
 			cur.DynPure = append(cur.DynPure, strings.Fields(rest)...)
+		case "rmul-signs":
+			if cur != nil {
+				cur.RmulSigns = true
+			}
+		case "let":
+			if cur == nil {
+				return fmt.Errorf("%s:%d: let outside func", file, rl.line)
+			}
+			sf, err := parseSpecFnDecl(rest, pkg, file, rl.line)
+			if err != nil {
+				return err
+			}
+			cur.Lets = append(cur.Lets, sf)
 		case "owns":
 			idx := strings.Index(rest, ":")
 			if idx < 0 {
@@ -403,40 +418,11 @@ func (cs *Contracts) parseFile(file, pkg string) error {
 			if !strings.HasPrefix(rest, "fn ") {
 				return fmt.Errorf("%s:%d: expected 'spec fn'", file, rl.line)
 			}
-			r := strings.TrimSpace(rest[3:])
-			op := strings.Index(r, "(")
-			if op < 0 {
-				return fmt.Errorf("%s:%d: bad spec fn", file, rl.line)
+			sf, err := parseSpecFnDecl(strings.TrimSpace(rest[3:]), pkg, file, rl.line)
+			if err != nil {
+				return err
 			}
-			name := strings.TrimSpace(r[:op])
-			cl := matchParen(r, op)
-			if cl < 0 {
-				return fmt.Errorf("%s:%d: bad spec fn params", file, rl.line)
-			}
-			var params []SBinder
-			for _, ptxt := range splitTop(r[op+1:cl], ',') {
-				ptxt = strings.TrimSpace(ptxt)
-				if ptxt == "" {
-					continue
-				}
-				idx := strings.IndexAny(ptxt, " \t")
-				if idx < 0 {
-					return fmt.Errorf("%s:%d: bad spec fn param %q", file, rl.line, ptxt)
-				}
-				params = append(params, SBinder{ptxt[:idx], strings.TrimSpace(ptxt[idx+1:])})
-			}
-			tail := strings.TrimSpace(r[cl+1:])
-			ret := tail
-			var bodyE SExpr
-			if eq := strings.Index(tail, "="); eq >= 0 && !strings.HasPrefix(tail[eq:], "==") {
-				ret = strings.TrimSpace(tail[:eq])
-				ex, err := parseSpec(strings.TrimSpace(tail[eq+1:]))
-				if err != nil {
-					return fmt.Errorf("%s:%d: %v", file, rl.line, err)
-				}
-				bodyE = ex
-			}
-			cs.SpecFns[name] = &SpecFn{Name: name, Params: params, Ret: ret, Body: bodyE, Pkg: pkg, File: file, Line: rl.line}
+			cs.SpecFns[sf.Name] = sf
 		case "axiom":
 			c, err := mkClause("axiom", rest, rl.line)
 			if err != nil {
@@ -569,4 +555,41 @@ func qualifyFuncName(name, pkg string) string {
 		return name
 	}
 	return sp + "." + name
+}
+
+// parseSpecFnDecl parses "name(a T, b U) R [= expr]".
+func parseSpecFnDecl(r, pkg, file string, line int) (*SpecFn, error) {
+	op := strings.Index(r, "(")
+	if op < 0 {
+		return nil, fmt.Errorf("%s:%d: bad spec fn", file, line)
+	}
+	name := strings.TrimSpace(r[:op])
+	cl := matchParen(r, op)
+	if cl < 0 {
+		return nil, fmt.Errorf("%s:%d: bad spec fn params", file, line)
+	}
+	var params []SBinder
+	for _, ptxt := range splitTop(r[op+1:cl], ',') {
+		ptxt = strings.TrimSpace(ptxt)
+		if ptxt == "" {
+			continue
+		}
+		idx := strings.IndexAny(ptxt, " \t")
+		if idx < 0 {
+			return nil, fmt.Errorf("%s:%d: bad spec fn param %q", file, line, ptxt)
+		}
+		params = append(params, SBinder{ptxt[:idx], strings.TrimSpace(ptxt[idx+1:])})
+	}
+	tail := strings.TrimSpace(r[cl+1:])
+	ret := tail
+	var bodyE SExpr
+	if eq := strings.Index(tail, "="); eq >= 0 && !strings.HasPrefix(tail[eq:], "==") {
+		ret = strings.TrimSpace(tail[:eq])
+		ex, err := parseSpec(strings.TrimSpace(tail[eq+1:]))
+		if err != nil {
+			return nil, fmt.Errorf("%s:%d: %v", file, line, err)
+		}
+		bodyE = ex
+	}
+	return &SpecFn{Name: name, Params: params, Ret: ret, Body: bodyE, Pkg: pkg, File: file, Line: line}, nil
 }
